@@ -3,7 +3,7 @@ ID = 'C05'
 CLAIM = ('xtl::variant<int, T1, T2> (T1: every copy/move may throw; T2: throwing copy, nothrow move; int trivial) with a lifetime ledger and a symbolic fault schedule (a throw decision at EVERY element '
          'copy/move constructor and assignment): copy/move construction, copy/move/converting assignment, emplace (incl. a throwing constructor), swap (member and free), in_place construction from every '
          'pair of start states (each alternative or valueless); observers index/valueless/holds_alternative/get_if/get/xget/visit mutually consistent; relational operators; visit over 2 and 3 variants (all 64 cells)')
-BOUNDS = {'quick': '3 alternatives, 2 variants per operation (3 for visit), one operation per query from every pair of start states, up to 10 throw decisions per operation; payload values 0..29999',
+BOUNDS = {'quick': '3 alternatives (plus one 258-alternative variant of trivial types for index/valueless/get_if/copy), 2 variants per operation (3 for visit), one operation per query from every pair of start states, up to 10 throw decisions per operation; payload values 0..29999',
           'thorough': 'same, second SAT back end'}
 NOT_COVERED = ['more than 3 alternatives / other alternative sets; recursive variants; sequences of two or more operations are covered through start states reachable by the API (every alternative, valueless) rather than enumerated',
                'variant_size/variant_alternative (compile time)']
@@ -22,7 +22,7 @@ def obligations(tier):
     obs = []
     for i, name in enumerate(OPS):
         ob = Ob('op/' + name, 'variant', 'h_op', defines=['OPFIX=%d' % i], unwind=4, bound='all start states, all fault schedules', min_witnesses=1, timeout=900); ob.harness_unwind = 12; obs.append(ob)
-    for h in ('h_rel', 'h_visit'):
+    for h in ('h_rel', 'h_visit', 'h_big'):
         ob = Ob(h[2:], 'variant', h, unwind=4, bound='all start states', min_witnesses=1, timeout=900); ob.harness_unwind = 12; obs.append(ob)
     if tier == 'thorough':
         ob = Ob('op/any@cadical', 'variant', 'h_op', unwind=4, backend='cadical', min_witnesses=3, timeout=3600, bound='symbolic operation selector'); ob.harness_unwind = 12; obs.append(ob)
